@@ -38,6 +38,16 @@ def _conv(ck, an, short, rule, spec, result_cls, what):
     fa = an.fa(short)
     subj = fa.f.short
     loops = [n for n in walk_function(fa.f.node) if isinstance(n, ast.For)]
+    comps = [n for n in walk_function(fa.f.node) if isinstance(n, ast.DictComp)]
+    if not loops and len(comps) == 1:
+        # comprehension form (what a plain accumulation loop is normalised to): the mapping returned, as one value id
+        got = ret_canons(fa)
+        want = specv(fa, f"{result_cls}({{c: {spec.format(c='c', v='v')} for c, v in self.items()}})", fa.node_of(returns_in(fa)[0]).id if returns_in(fa) else None).key()
+        ck.check(got == [want], "LIN", rule, subj, fa.f.loc, what, f"returns {[g[:300] for g in got]}; expected {want[:300]}", construct=f"return {result_cls}(...)", witness=[f"got      {got}", f"expected {want}"])
+        nl = fa.calls_to("Broker.net_liquidation_value")
+        ck.check(len(nl) == 1 and not nl[0].args and not nl[0].keywords and not any(isinstance(p, (ast.For, ast.While, ast.DictComp, ast.ListComp, ast.GeneratorExp)) for p in parents(nl[0]) if p is not fa.f.node), "ARGFLOW",
+                 rule + "-single-nlv", subj, fa.f.loc, "one NLV measurement is shared by all contracts", f"NLV is measured {len(nl)} time(s) / per contract / with arguments", construct="nlv = broker.net_liquidation_value()")
+        return
     if len(loops) != 1 or not isinstance(loops[0].target, ast.Tuple):
         ck.fail("LIN", rule, subj, fa.f.loc, f"{subj}: expected one loop over (contract, value) items", construct="for contract, value in self.items()")
         return
